@@ -14,15 +14,16 @@ import (
 )
 
 type c14Merge struct {
-	Do                          *ssa.Function
-	VD                          *c14View // Do with everything it runs in the package
-	Assign, Commit, Complete    *ssa.Function
-	AssignCalls, CommitCalls    []ssa.CallInstruction
-	CompleteCalls               []ssa.CallInstruction
-	PrepareCalls, ResolveCalls  []ssa.CallInstruction
-	Recvs                       []*ssa.UnOp
-	Prepare, Resolve            *ssa.Parameter
-	VAssign, VCommit, VComplete *c14View
+	Do                         *ssa.Function
+	VD                         *c14View // Do with everything it runs in the package
+	Assign, Commit, Complete   *ssa.Function
+	AssignCalls                []ssa.CallInstruction
+	CommitPts                  []ssa.Instruction // the stores committed=true (wherever they sit)
+	CompleteCalls              []ssa.CallInstruction
+	PrepareCalls, ResolveCalls []ssa.CallInstruction
+	Recvs                      []*ssa.UnOp
+	Prepare, Resolve           *ssa.Parameter
+	VAssign, VComplete         *c14View
 }
 
 func c14SyncExpand(g *ssa.Function) bool {
@@ -66,11 +67,9 @@ func c14FindMerge(c *Ctx) []*c14Merge {
 		c.LostAnchor(R, "~/internal/syncutil.Merge.Do")
 		return nil
 	}
-	for _, f := range []string{"lock", "committed", "items", "status", "pending", "pendingStatus"} {
-		if !c14HasField(c.P, c14PkgSync, "Merge", f) {
-			c.LostAnchor(R, "field ~/internal/syncutil.Merge."+f)
-			return nil
-		}
+	if why := c14ResolveNames(c); why != "" {
+		c.LostAnchor(R, why)
+		return nil
 	}
 	var out []*c14Merge
 	for _, D := range c.P.Instances(gen) {
@@ -148,31 +147,10 @@ func c14FindMerge(c *Ctx) []*c14Merge {
 			}
 		})
 		// commit: producer of resolve's argument
-		for _, rc := range m.ResolveCalls {
-			if len(rc.Common().Args) != 1 {
-				continue
-			}
-			for _, l := range V.LeavesShallow(rc.Common().Args[0]) {
-				if call, ok := l.(*ssa.Call); ok {
-					if g := onRecv(call); g != nil && g != m.Assign {
-						m.Commit = g
-					}
-				}
-			}
-		}
-		if m.Commit == nil {
-			// resolve may have been disconnected from commit (that is what R1 reports);
-			// fall back to: the receiver method that sets committed=true
-			for _, call := range V.Calls(func(string) bool { return true }) {
-				g := onRecv(call)
-				if g == nil || g == m.Assign {
-					continue
-				}
-				for _, s := range c14FieldStores(g, c14TMerge, "committed") {
-					if b, ok := c14ConstBool(s.Val); ok && b {
-						m.Commit = g
-					}
-				}
+		// commit: wherever the window is closed (committed = true)
+		for _, st := range V.FieldStores(c14TMerge, c14N.committed) {
+			if bv, ok := c14ConstBool(st.Val); ok && bv {
+				m.CommitPts = append(m.CommitPts, st)
 			}
 		}
 		// complete: outermost receiver method that takes an error
@@ -186,7 +164,7 @@ func c14FindMerge(c *Ctx) []*c14Merge {
 				continue
 			}
 			g := onRecv(call)
-			if g == nil || g == m.Assign || g == m.Commit {
+			if g == nil || g == m.Assign {
 				continue
 			}
 			args := call.Common().Args
@@ -206,13 +184,8 @@ func c14FindMerge(c *Ctx) []*c14Merge {
 				m.CompleteCalls = append(m.CompleteCalls, cd.call)
 			}
 		}
-		for _, call := range V.Calls(func(string) bool { return true }) {
-			if m.Commit != nil && StaticCallee(call) == m.Commit {
-				m.CommitCalls = append(m.CommitCalls, call)
-			}
-		}
 		ok := true
-		for what, f := range map[string]*ssa.Function{"assign (channel result received)": m.Assign, "commit (result handed to resolve / sets committed)": m.Commit, "complete (takes the error)": m.Complete} {
+		for what, f := range map[string]*ssa.Function{"assign (channel result received)": m.Assign, "complete (takes the error)": m.Complete} {
 			if f == nil {
 				c.LostAnchor(R, dn+": step "+what)
 				ok = false
@@ -220,7 +193,6 @@ func c14FindMerge(c *Ctx) []*c14Merge {
 		}
 		if ok {
 			m.VAssign = c14NewView(m.Assign, 4, c14SyncExpand)
-			m.VCommit = c14NewView(m.Commit, 4, c14SyncExpand)
 			m.VComplete = c14NewView(m.Complete, 4, c14SyncExpand)
 			out = append(out, m)
 		}
@@ -301,7 +273,6 @@ func c14R1(c *Ctx, ms []*c14Merge) {
 		c14R1Do(c, m)
 		c14R1Complete(c, m)
 		c14R1Assign(c, m)
-		c14R1Commit(c, m)
 	}
 }
 
@@ -314,7 +285,7 @@ func c14R1Do(c *Ctx, m *c14Merge) {
 	for _, f := range V.Funcs() {
 		for _, i := range Ifs(f) {
 			cond, _, _ := ifEdges(i)
-			if m.recvField(cond) == "main" {
+			if m.recvField(cond) == c14N.main {
 				mainVals[cond] = true
 			}
 		}
@@ -334,15 +305,21 @@ func c14R1Do(c *Ctx, m *c14Merge) {
 		return len(cs) > 0
 	}
 	onMain := func(x ssa.CallInstruction) bool { return V.MustPass(x.(ssa.Instruction), mainCut) }
-	commits := m.CommitCalls
-	ok := all(m.PrepareCalls, onMain) && all(commits, onMain) && all(m.ResolveCalls, onMain) && all(m.CompleteCalls, onMain)
+	commits := m.CommitPts
+	okCommitsMain := true
+	for _, p := range commits {
+		if !V.MustPass(p, mainCut) {
+			okCommitsMain = false
+		}
+	}
+	ok := all(m.PrepareCalls, onMain) && okCommitsMain && all(m.ResolveCalls, onMain) && all(m.CompleteCalls, onMain)
 	c.Check(R, dn+"|only-main-runs-the-batch", mainE.From.Instrs[len(mainE.From.Instrs)-1].Pos(), ok,
 		ifelse(ok, "prepare, commit, resolve and complete are reached only on the main==true edge", "a caller that is not the batch's main can run prepare/commit/resolve/complete (two read-modify-write cycles of one index run concurrently: lost update)"))
 	// prepare runs on every main path
 	r := V.ExitFromEdge(mainE, newCut().Calls(m.PrepareCalls))
 	c.Check(R, dn+"|prepare-on-every-main-path", D.Pos(), !r && len(m.PrepareCalls) > 0, "every path of the main branch calls prepare()")
 	// commit on every main path
-	r = V.ExitFromEdge(mainE, newCut().Calls(commits))
+	r = len(commits) == 0 || V.ExitFromEdge(mainE, newCut().Instr(commits...))
 	c.Check(R, dn+"|commit-on-every-path", D.Pos(), !r,
 		ifelse(!r, "every path of the main branch (also after a prepare error) calls commit()", "a path of the main branch returns without commit(): complete() then reopens a window that was never closed and the batch bookkeeping is off"))
 	// resolve: with commit's result, iff prepare succeeded
@@ -355,31 +332,32 @@ func c14R1Do(c *Ctx, m *c14Merge) {
 		}
 	}
 	prepNil, prepNonNil := V.NilTests(prepErr)
-	commitVals := map[ssa.Value]bool{}
-	for _, cm := range commits {
-		if cm.Value() != nil {
-			commitVals[cm.Value()] = true
-		}
-	}
 	for i, rc := range m.ResolveCalls {
 		key := fmt.Sprintf("%s|resolve#%d", dn, i+1)
-		okArg := len(rc.Common().Args) == 1
+		// the argument is m.items as read after the window was closed
+		okArg := len(rc.Common().Args) == 1 && len(commits) > 0
 		if okArg {
-			ls := V.LeavesShallow(rc.Common().Args[0])
-			okArg = len(ls) == 1 && commitVals[ls[0]]
+			ls := V.Leaves(rc.Common().Args[0])
+			okArg = len(ls) > 0
+			for _, l := range ls {
+				ld, isLd := l.(*ssa.UnOp)
+				if !isLd || !c14IsLoadOfField(ld, c14TMerge, c14N.items) || !V.MustPass(ld, newCut().Instr(commits...)) {
+					okArg = false
+				}
+			}
 		}
 		c.Check(R, key+"|gets-committed-items", rc.Pos(), okArg,
-			ifelse(okArg, "resolve receives exactly the slice returned by commit()", "resolve is not called with the slice returned by commit(): changes batched by concurrent callers are dropped"))
+			ifelse(okArg, "resolve receives m.items as read after the window was closed (committed = true)", "resolve is not given the batch's items read after the window was closed: changes batched by concurrent callers are dropped, or the slice is still being appended to"))
 		okPre := len(prepNil) > 0 && V.MustPass(rc.(ssa.Instruction), newCut().Edges(prepNil...))
 		c.Check(R, key+"|only-after-prepare-ok", rc.Pos(), okPre,
 			ifelse(okPre, "resolve is reached only on the nil edge of prepare's error", "resolve can run although prepare failed (the update is computed from a list that was never fetched)"))
 		okOrder := true
 		for _, cm := range commits {
-			if V.Reachable(rc.(ssa.Instruction), cm.(ssa.Instruction)) {
+			if V.Reachable(rc.(ssa.Instruction), cm) {
 				okOrder = false
 			}
 		}
-		c.Check(R, key+"|after-commit", rc.Pos(), okOrder, "no commit() after resolve")
+		c.Check(R, key+"|after-commit", rc.Pos(), okOrder, "the window is not closed again after resolve")
 	}
 	if len(m.ResolveCalls) == 0 {
 		c.Violation(R, dn+"|resolve#1|gets-committed-items", D.Pos(), "Do never calls resolve")
@@ -459,8 +437,8 @@ func c14R1Do(c *Ctx, m *c14Merge) {
 				ifelse(okSrc, "complete receives prepare's error on the failure path and resolve's error otherwise", "complete() does not receive the error of prepare/resolve: waiting callers are told the update succeeded although it failed (or the reverse)"))
 		}
 		okOrder := true
-		for _, x := range append(append([]ssa.CallInstruction{}, m.ResolveCalls...), commits...) {
-			if V.Reachable(cc.(ssa.Instruction), x.(ssa.Instruction)) {
+		for _, x := range append(c14CallsI(m.ResolveCalls), commits...) {
+			if V.Reachable(cc.(ssa.Instruction), x) {
 				okOrder = false
 			}
 		}
@@ -509,7 +487,7 @@ func c14R1Do(c *Ctx, m *c14Merge) {
 					ifelse(same, "the main caller returns the error it broadcast", "the main caller returns something else than the error it handed to complete()"))
 			case aOther && !aMain:
 				n++
-				ok := m.recvField(a.Val) == "err"
+				ok := m.recvField(a.Val) == c14N.err
 				c.Check(R, dn+"|non-main-returns-status-err", ret.Pos(), ok,
 					ifelse(ok, "a waiting caller returns the err field of the status it received", "a waiting caller does not return the error broadcast by the main caller: a failed batch is reported as success"))
 			default:
@@ -539,14 +517,14 @@ func c14Lin(V *c14View, v ssa.Value, depth int) (a, b int64, ok bool) {
 	case *ssa.Call:
 		if CalleeName(u) == "builtin:len" {
 			x := u.Call.Args[0]
-			if V.IsLoadOfField(x, c14TMerge, "items") {
+			if V.IsLoadOfField(x, c14TMerge, c14N.items) {
 				return 1, 0, true
 			}
 			xs := V.Leaves(x)
 			if len(xs) != 1 {
 				return 0, 0, false
 			}
-			if sl, isSl := xs[0].(*ssa.Slice); isSl && sl.Max == nil && V.IsLoadOfField(sl.X, c14TMerge, "items") {
+			if sl, isSl := xs[0].(*ssa.Slice); isSl && sl.Max == nil && V.IsLoadOfField(sl.X, c14TMerge, c14N.items) {
 				var lo, hi int64
 				hiA := int64(1)
 				if sl.Low != nil {
@@ -715,7 +693,7 @@ func c14R1Complete(c *Ctx, m *c14Merge) {
 	if !c.Check(R, fn+"|tests-the-error", F.Pos(), len(nilE) > 0, "complete branches on err == nil") {
 		return
 	}
-	isStatus := func(ch ssa.Value) bool { return V.IsLoadOfField(ch, c14TMerge, "status") }
+	isStatus := func(ch ssa.Value) bool { return V.IsLoadOfField(ch, c14TMerge, c14N.status) }
 	// success: close(m.status)
 	var closes []ssa.CallInstruction
 	for _, cl := range V.CallsTo("builtin:close") {
@@ -742,8 +720,8 @@ func c14R1Complete(c *Ctx, m *c14Merge) {
 	// classify sends
 	var failSends, mainSends []*ssa.Send
 	for _, s := range V.Sends() {
-		errVals, isLit := c14LitField(V, s.X, "err")
-		mainVals, _ := c14LitField(V, s.X, "main")
+		errVals, isLit := c14LitField(V, s.X, c14N.err)
+		mainVals, _ := c14LitField(V, s.X, c14N.main)
 		isMain := false
 		for _, v := range mainVals {
 			if b, ok := c14ConstBool(v); ok && b {
@@ -844,7 +822,7 @@ func c14R1Complete(c *Ctx, m *c14Merge) {
 		return o
 	}
 	var reopen []ssa.Instruction
-	for _, s := range V.FieldStores(c14TMerge, "committed") {
+	for _, s := range V.FieldStores(c14TMerge, c14N.committed) {
 		if b, ok := c14ConstBool(s.Val); ok && !b {
 			reopen = append(reopen, s)
 		} else {
@@ -890,11 +868,11 @@ func c14R1Complete(c *Ctx, m *c14Merge) {
 		}
 		return len(cl) > 0 && !V.ExitFromEntry(newCut().Instr(cl...))
 	}
-	_, itemLoads, okI := promo("items", "pending")
+	_, itemLoads, okI := promo(c14N.items, c14N.pending)
 	c.Check(R, fn+"|promotes-pending-items", F.Pos(), okI, ifelse(okI, "every path stores m.items = m.pending", "the pending items are not promoted to the next batch on every path: changes assigned while the batch ran are lost"))
-	statusStores, statusLoads, okS := promo("status", "pendingStatus")
+	statusStores, statusLoads, okS := promo(c14N.status, c14N.pendingStatus)
 	c.Check(R, fn+"|promotes-pending-status", F.Pos(), okS, ifelse(okS, "every path stores m.status = m.pendingStatus", "the pending status channel is not promoted with its items: the callers of the next batch wait on a channel nobody serves"))
-	okC := clears("pending", itemLoads) && clears("pendingStatus", statusLoads)
+	okC := clears(c14N.pending, itemLoads) && clears(c14N.pendingStatus, statusLoads)
 	c.Check(R, fn+"|clears-pending", F.Pos(), okC, ifelse(okC, "pending and pendingStatus are reset to nil after they were promoted, on every path", "the pending batch is not cleared after promotion (or cleared before it is read): a batch is run twice or dropped"))
 	// one main token for the promoted batch
 	promoted := map[ssa.Value]bool{}
@@ -903,7 +881,7 @@ func c14R1Complete(c *Ctx, m *c14Merge) {
 			promoted[a] = true
 		}
 	}
-	for _, ld := range V.FieldLoads(c14TMerge, "status") {
+	for _, ld := range V.FieldLoads(c14TMerge, c14N.status) {
 		if len(statusStores) > 0 && V.MustPass(ld, newCut().Instr(statusStores...)) {
 			for a := range V.Aliases(ld) {
 				promoted[a] = true
@@ -952,7 +930,7 @@ func c14R1Assign(c *Ctx, m *c14Merge) {
 	}
 	item := F.Params[1]
 	cl := map[ssa.Value]bool{}
-	for _, ld := range V.FieldLoads(c14TMerge, "committed") {
+	for _, ld := range V.FieldLoads(c14TMerge, c14N.committed) {
 		for a := range V.Aliases(ld) {
 			cl[a] = true
 		}
@@ -986,8 +964,8 @@ func c14R1Assign(c *Ctx, m *c14Merge) {
 		}
 		return out, ok && len(out) > 0
 	}
-	itemStores, okI := appendStores("items")
-	pendStores, okP := appendStores("pending")
+	itemStores, okI := appendStores(c14N.items)
+	pendStores, okP := appendStores(c14N.pending)
 	okOpen := okI
 	for _, s := range itemStores {
 		if !V.MustPass(s, newCut().Edges(fe...)) {
@@ -1042,9 +1020,9 @@ func c14R1Assign(c *Ctx, m *c14Merge) {
 		}
 		switch {
 		case fromT && !fromF:
-			okRet = okRet && V.IsLoadOfField(a.Val, c14TMerge, "pendingStatus")
+			okRet = okRet && V.IsLoadOfField(a.Val, c14TMerge, c14N.pendingStatus)
 		case fromF && !fromT:
-			okRet = okRet && V.IsLoadOfField(a.Val, c14TMerge, "status")
+			okRet = okRet && V.IsLoadOfField(a.Val, c14TMerge, c14N.status)
 		default:
 			okRet = false
 		}
@@ -1080,10 +1058,10 @@ func c14R1Assign(c *Ctx, m *c14Merge) {
 		}
 		return ok && n > 0, makes
 	}
-	okMkS, makesS := mk("status", fe)
+	okMkS, makesS := mk(c14N.status, fe)
 	c.Check(R, fn+"|status-created-once", F.Pos(), okMkS,
 		ifelse(okMkS, "m.status is created only when it is nil, on the open edge", "m.status can be replaced while callers already wait on it: they park forever"))
-	okMkP, _ := mk("pendingStatus", te)
+	okMkP, _ := mk(c14N.pendingStatus, te)
 	c.Check(R, fn+"|pending-status-created-once", F.Pos(), okMkP,
 		ifelse(okMkP, "m.pendingStatus is created only when it is nil, on the committed edge", "m.pendingStatus can be replaced while callers already wait on it: they park forever"))
 	okBuf := len(makesS) > 0
@@ -1098,7 +1076,7 @@ func c14R1Assign(c *Ctx, m *c14Merge) {
 	var mainSends []ssa.Instruction
 	okTok := true
 	stLoads := map[ssa.Value]bool{}
-	for _, ld := range V.FieldLoads(c14TMerge, "status") {
+	for _, ld := range V.FieldLoads(c14TMerge, c14N.status) {
 		for a := range V.Aliases(ld) {
 			stLoads[a] = true
 		}
@@ -1110,7 +1088,7 @@ func c14R1Assign(c *Ctx, m *c14Merge) {
 	}
 	stNil, _ := V.NilTests(stLoads)
 	for _, s := range V.Sends() {
-		mainVals, isLit := c14LitField(V, s.X, "main")
+		mainVals, isLit := c14LitField(V, s.X, c14N.main)
 		isMain := false
 		for _, v := range mainVals {
 			if b, ok := c14ConstBool(v); ok && b {
@@ -1140,37 +1118,6 @@ func c14R1Assign(c *Ctx, m *c14Merge) {
 	}
 	c.Check(R, fn+"|one-main-token-per-new-batch", F.Pos(), okTok,
 		ifelse(okTok, "exactly when assign creates m.status it sends one mergeStatus{main:true}", "a new batch does not get exactly one main token (none: all its callers park forever; more: two updaters of one index run concurrently and one overwrites the other)"))
-}
-
-func c14R1Commit(c *Ctx, m *c14Merge) {
-	const R = "C14.R1.merge-protocol"
-	F, V := m.Commit, m.VCommit
-	fn := FnName(F)
-	var sets []ssa.Instruction
-	ok := true
-	for _, s := range V.FieldStores(c14TMerge, "committed") {
-		if b, isB := c14ConstBool(s.Val); isB && b {
-			sets = append(sets, s)
-		} else {
-			ok = false
-		}
-	}
-	ok = ok && len(sets) > 0 && !V.ExitFromEntry(newCut().Instr(sets...))
-	c.Check(R, fn+"|closes-window", F.Pos(), ok,
-		ifelse(ok, "every path stores committed=true", "commit() does not close the assignment window on every path: assign keeps appending to the slice being resolved"))
-	okRet := true
-	n := 0
-	for _, a := range RetAtoms(F, 0) {
-		if !V.ReachableFromEntry(a.Ret) {
-			continue
-		}
-		n++
-		if _, isZero := a.Val.(zeroMarker); isZero || !V.IsLoadOfField(a.Val, c14TMerge, "items") {
-			okRet = false
-		}
-	}
-	c.Check(R, fn+"|returns-items", F.Pos(), okRet && n > 0,
-		ifelse(okRet && n > 0, "commit returns m.items", "commit() does not return the batch's items"))
 }
 
 // ---------- R2 ----------
@@ -1220,7 +1167,7 @@ func c14HeldInView(V *c14View) map[ssa.Instruction]heldSet {
 func c14R2(c *Ctx, ms []*c14Merge) {
 	const R = "C14.R2.lock-discipline"
 	c.Expect(R, 18)
-	mergeFields := []string{"committed", "items", "status", "pending", "pendingStatus"}
+	mergeFields := []string{c14N.committed, c14N.items, c14N.status, c14N.pending, c14N.pendingStatus}
 	const reason = "complete() reads m.items/m.status before locking: while committed==true (set by commit() before complete() is reached) assign() writes neither, so there is no concurrent writer; the premise is proved by the |premise obligations"
 	pkgFns := c.P.FuncsOfPkg(c14PkgSync)
 	callersOf := func(g *ssa.Function) []*ssa.Function {
@@ -1255,13 +1202,13 @@ func c14R2(c *Ctx, ms []*c14Merge) {
 			}
 		}
 	}
-	if !c14HasField(c.P, c14PkgSync, "Pool", "items") || !c14HasField(c.P, c14PkgSync, "Pool", "lock") || !c14HasField(c.P, c14PkgSync, "poolItem", "refCount") {
-		c.LostAnchor(R, "~/internal/syncutil.Pool.{items,lock} / poolItem.refCount")
+	if c14N.poolItems == "" || c14N.poolLock == "" || c14N.refCount == "" {
+		c.LostAnchor(R, "~/internal/syncutil.Pool: its mutex, its map of items and the reference count of an item")
 		return
 	}
 	LockCheck(c, R, []GuardSpec{
-		{Type: c14TMerge, Fields: mergeFields, Lock: "lock", Exempt: exempt},
-		{Type: c14TPool, Fields: []string{"items"}, Lock: "lock"},
+		{Type: c14TMerge, Fields: mergeFields, Lock: c14N.lock, Exempt: exempt},
+		{Type: c14TPool, Fields: []string{c14N.poolItems}, Lock: c14N.poolLock},
 	}, []string{c14PkgSync})
 
 	fields := map[string]bool{}
@@ -1275,7 +1222,7 @@ func c14R2(c *Ctx, ms []*c14Merge) {
 		// unlocked reads are only of items/status and happen before the window is reopened
 		h := c14HeldInView(V)
 		var reopen []*ssa.Store
-		reopen = append(reopen, V.FieldStores(c14TMerge, "committed")...)
+		reopen = append(reopen, V.FieldStores(c14TMerge, c14N.committed)...)
 		okW, okR := true, true
 		detail := ""
 		for _, g := range V.Funcs() {
@@ -1283,7 +1230,7 @@ func c14R2(c *Ctx, ms []*c14Merge) {
 				continue // shared helper: LockCheck covers it with its caller-holds summary
 			}
 			for _, a := range fieldAccesses(g, c14TMerge, fields) {
-				lp := accessPath(a.Base) + ".lock"
+				lp := accessPath(a.Base) + "." + c14N.lock
 				if h[a.At][lp] >= modeW {
 					continue
 				}
@@ -1292,7 +1239,7 @@ func c14R2(c *Ctx, ms []*c14Merge) {
 					detail = fmt.Sprintf("write of Merge.%s at %s without m.lock", a.Field, c.P.Pos(a.At.Pos()))
 					continue
 				}
-				if a.Field != "items" && a.Field != "status" {
+				if a.Field != c14N.items && a.Field != c14N.status {
 					okR = false
 					detail = fmt.Sprintf("unlocked read of Merge.%s at %s", a.Field, c.P.Pos(a.At.Pos()))
 				}
@@ -1308,9 +1255,9 @@ func c14R2(c *Ctx, ms []*c14Merge) {
 		c.Check(R, fn+"|exception:unlocked-reads-only-items-status-before-reopen", F.Pos(), okR,
 			ifelse(okR, "the only unlocked accesses are reads of m.items/m.status before committed is reset", detail+" — assign() may write it concurrently (data race)"))
 		// premise 1: committed==true whenever complete() runs
-		okP := len(m.CompleteCalls) > 0 && len(m.CommitCalls) > 0
+		okP := len(m.CompleteCalls) > 0 && len(m.CommitPts) > 0
 		for _, cc := range m.CompleteCalls {
-			if !m.VD.MustPass(cc.(ssa.Instruction), newCut().Calls(m.CommitCalls)) {
+			if !m.VD.MustPass(cc.(ssa.Instruction), newCut().Instr(m.CommitPts...)) {
 				okP = false
 			}
 		}
@@ -1335,7 +1282,7 @@ func c14R2(c *Ctx, ms []*c14Merge) {
 		if allowed[f] {
 			continue
 		}
-		if len(c14FieldStores(f, c14TMerge, "items"))+len(c14FieldStores(f, c14TMerge, "status")) > 0 {
+		if len(c14FieldStores(f, c14TMerge, c14N.items))+len(c14FieldStores(f, c14TMerge, c14N.status)) > 0 {
 			okW = false
 			detail = FnName(f) + " writes Merge.items/status: the exception for complete()'s unlocked reads no longer holds"
 		}
@@ -1362,7 +1309,7 @@ func c14R2(c *Ctx, ms []*c14Merge) {
 				inView[o] = true
 			}
 			var accs []ssa.Instruction
-			for _, fa := range c14FieldAddrs(f, c14TPoolItem, "refCount") {
+			for _, fa := range c14FieldAddrs(f, c14N.poolItem, c14N.refCount) {
 				for _, r := range *fa.Referrers() {
 					if in, ok := r.(ssa.Instruction); ok {
 						if _, dbg := r.(*ssa.DebugRef); !dbg {
@@ -1379,7 +1326,7 @@ func c14R2(c *Ctx, ms []*c14Merge) {
 			for _, at := range accs {
 				held := false
 				for lp, mode := range h[at] {
-					if mode >= modeW && strings.HasSuffix(lp, ".lock") {
+					if mode >= modeW && strings.HasSuffix(lp, "."+c14N.poolLock) {
 						held = true
 					}
 				}
@@ -1387,7 +1334,7 @@ func c14R2(c *Ctx, ms []*c14Merge) {
 					ok = false
 				}
 			}
-			c.Check(R, FnName(f)+"|"+c14TPoolItem+".refCount|W", f.Pos(), ok,
+			c.Check(R, FnName(f)+"|"+c14N.poolItem+"."+c14N.refCount+"|W", f.Pos(), ok,
 				ifelse(ok, "every access of refCount holds the pool's lock", "refCount is accessed without the pool's lock: the per-tag Merge can be dropped from the pool while another updater still uses it (two Merge objects for one referrers tag: updates are no longer serialised)"))
 		}
 	}
@@ -1396,9 +1343,9 @@ func c14R2(c *Ctx, ms []*c14Merge) {
 	}
 	// other functions touching refCount
 	for _, f := range pkgFns {
-		if len(c14FieldAddrs(f, c14TPoolItem, "refCount")) == 0 || inView[f] {
+		if len(c14FieldAddrs(f, c14N.poolItem, c14N.refCount)) == 0 || inView[f] {
 			continue
 		}
-		c.Violation(R, FnName(f)+"|"+c14TPoolItem+".refCount|unclassified", f.Pos(), "refCount is accessed outside Pool.Get and its release function: not covered by the confirmed lock discipline")
+		c.Violation(R, FnName(f)+"|"+c14N.poolItem+"."+c14N.refCount+"|unclassified", f.Pos(), "refCount is accessed outside Pool.Get and its release function: not covered by the confirmed lock discipline")
 	}
 }
